@@ -429,7 +429,13 @@ func (e *h5Engine[T, A]) op(t *tokenReader) (res string) {
 		return status(e.mkRef(e.fn, path, nil).WriteSlice(a, loc))
 	case "load":
 		path, sel := t.next(), popSel(t)
+		before := fmtSel(sel)
 		r, err := e.mkRef(e.fn, path, sel).Load()
+		if after := fmtSel(sel); after != before {
+			// frame: a Load must not rewrite the caller's selection (the same [][]int is legitimately reused for other datasets:
+			// a "whole dimension" entry filled in with this dataset's extent silently truncates the next, longer one)
+			return "frame selection-modified:" + strings.ReplaceAll(before, " ", ",") + "->" + strings.ReplaceAll(after, " ", ",")
+		}
 		if err != nil {
 			return "err " + h5ErrClass(err)
 		}
@@ -1016,6 +1022,12 @@ func oracleH5(c *Ctx, id int, body, impl string) {
 	results := strings.Split(main, " ; ")
 	if len(results) == 0 {
 		return
+	}
+	for k, r := range results {
+		if strings.HasPrefix(r, "frame ") {
+			c.OracleFail(id, "H5:frame", fmt.Sprintf("op %d: Load rewrote the selection it was given (%s): the same selection reused on another dataset no longer addresses the selected region", k, r), body)
+			return
+		}
 	}
 	dump := results[len(results)-1]
 	results = results[:len(results)-1]
